@@ -54,6 +54,7 @@ KINDS = (
     + [("fire", d) for d in (0, 1, 2, 3)]
     + [("fail", d) for d in (0, 1, 2, 3)]
     + [("stop", d) for d in (1, 2, 3)]
+    + [("firestop", 1), ("failstop", 1)]
 )
 EXTRAS = ("none", "junk_before", "junk_after", "selectable", "junk_after+selectable")
 SMALL_KINDS = [("ret",), ("fire", 1), ("fail", 1), ("fire", 3), ("stop", 1)]
@@ -132,6 +133,19 @@ def make_function(reactor, spinner, spec, rec, run_index, timeout=None):
             d = rec.deferred = defer.Deferred()
             rec.calls.append(reactor.callLater(kind[1], d.errback, FnError("run%d" % run_index)))
             return d
+        if k in ("firestop", "failstop"):
+            # one delayed call delivers the result and THEN asks the reactor to stop: the result is in
+            d = rec.deferred = defer.Deferred()
+
+            def deliver_then_stop():
+                if k == "firestop":
+                    d.callback(("value", run_index))
+                else:
+                    d.errback(FnError("run%d" % run_index))
+                reactor.stop()
+
+            rec.calls.append(reactor.callLater(kind[1], deliver_then_stop))
+            return d
         if k == "stop":
             # the function itself asks the reactor to stop (as a signal handler would)
             rec.calls.append(reactor.callLater(kind[1], reactor.stop))
@@ -170,6 +184,10 @@ def model_outcomes(spec, run_index, interrupt_at):
         return {err}
     if k == "reenter":
         return {("raised", "ReentryError", None)}
+    if k == "firestop":
+        events.append(((kind[1], 0), val))
+    if k == "failstop":
+        events.append(((kind[1], 0), err))
     if k == "fire":
         if kind[1] == 0:
             return {val}
